@@ -636,6 +636,107 @@ func (c *ConcCase) Exec(t *eng.T) {
 	}
 }
 
+// ---------- bans, globals and options of two sets ----------
+
+// IsoCase: a history of settings made on two sets (bans of tags and filters, a global, an option) followed by probes
+// on BOTH sets: each set shows exactly what was done to it.
+type IsoCase struct {
+	Ops []string `json:"ops"` // BT(set,tag) BF(set,filter) G(set) O(set) C(set)
+}
+
+func (c *IsoCase) ID() string { return "isolation: " + strings.Join(c.Ops, " ") }
+
+func (c *IsoCase) Exec(t *eng.T) {
+	if os.Getenv("VERIF_RACEPASS") != "" {
+		t.Skip() // sequential: nothing for the race detector
+		return
+	}
+	t.Nontrivial()
+	var sets [2]*pongo2.TemplateSet
+	type st struct {
+		tags, filters map[string]bool
+		frozen        bool
+		global, opt   bool
+	}
+	var m [2]st
+	for i := range sets {
+		sets[i], _ = px.NewSet(map[string]string{"/f": "file"})
+		m[i] = st{tags: map[string]bool{}, filters: map[string]bool{}}
+	}
+	for step, op := range c.Ops {
+		si := int(op[strings.Index(op, "(")+1] - '1')
+		arg := strings.TrimSuffix(op[strings.Index(op, ",")+1:], ")")
+		switch {
+		case strings.HasPrefix(op, "BT("):
+			err := sets[si].BanTag(arg)
+			want := m[si].frozen || m[si].tags[arg]
+			if (err != nil) != want {
+				t.Fail("isolation:ban-result", "%s: step %d %s returned error=%v, expected refused=%v", c.ID(), step+1, op, err, want)
+				return
+			}
+			if err == nil {
+				m[si].tags[arg] = true
+			}
+		case strings.HasPrefix(op, "BF("):
+			err := sets[si].BanFilter(arg)
+			want := m[si].frozen || m[si].filters[arg]
+			if (err != nil) != want {
+				t.Fail("isolation:ban-result", "%s: step %d %s returned error=%v, expected refused=%v", c.ID(), step+1, op, err, want)
+				return
+			}
+			if err == nil {
+				m[si].filters[arg] = true
+			}
+		case strings.HasPrefix(op, "G("):
+			sets[si].Globals["gv"] = fmt.Sprint("G", si+1)
+			m[si].global = true
+		case strings.HasPrefix(op, "O("):
+			sets[si].Options.TrimBlocks = true
+			m[si].opt = true
+		case strings.HasPrefix(op, "C("):
+			if _, err := sets[si].FromString("plain"); err != nil {
+				t.Fail("isolation:compile", "%s: step %d: a plain template does not compile: %v", c.ID(), step+1, err)
+				return
+			}
+			m[si].frozen = true
+		}
+	}
+	// probes on both sets
+	var outcome []string
+	for i := range sets {
+		for _, p := range []struct{ kind, name, src, want string }{
+			{"tag", "lorem", "{% lorem 1 w %}", "orem"}, {"tag", "now", `{% now "2006" fake %}`, "2014"},
+			{"filter", "upper", `{{ "a"|upper }}`, "A"}, {"filter", "lower", `{{ "B"|lower }}`, "b"},
+		} {
+			o := px.RenderIn(sets[i], p.src, nil)
+			banned := (p.kind == "tag" && m[i].tags[p.name]) || (p.kind == "filter" && m[i].filters[p.name])
+			outcome = append(outcome, fmt.Sprint(banned))
+			if banned != o.Failed() {
+				t.Fail("isolation:bans", "%s: afterwards set %d renders %s as %s, but the %s %s is banned there: %v", c.ID(), i+1, p.src, o, p.kind, p.name, banned)
+				return
+			}
+			if !banned && !strings.Contains(o.S, p.want) {
+				t.Fail("isolation:bans", "%s: afterwards set %d renders %s as %s", c.ID(), i+1, p.src, o)
+				return
+			}
+		}
+		o := px.RenderIn(sets[i], "[{{ gv }}]{% if 1 %}\n{% endif %}", nil)
+		want := "["
+		if m[i].global {
+			want += fmt.Sprint("G", i+1)
+		}
+		want += "]"
+		if !m[i].opt {
+			want += "\n"
+		}
+		if o.Failed() || o.S != want {
+			t.Fail("isolation:globals-options", "%s: afterwards set %d renders the probe for its global and TrimBlocks as %s, want %q", c.ID(), i+1, o, want)
+			return
+		}
+	}
+	t.Outcome(strings.Join(outcome, ""))
+}
+
 // ---------- concurrent loads through pongo2's own loaders ----------
 
 // ConcLoaderCase: two sets with loaders of their own (pongo2's FSLoader or HttpFilesystemLoader over separate
@@ -823,6 +924,21 @@ func run(r *eng.Runner) {
 		r.Do(&HistCase{Ops: ops, Loader: "fs"})
 		return !r.Stopped()
 	})
+	// settings of one set are none of the other set's business
+	isoOps := []string{"BT(1,lorem)", "BT(1,now)", "BF(1,upper)", "BF(1,lower)", "BT(2,lorem)", "BF(2,upper)", "G(1)", "G(2)", "O(1)", "O(2)", "C(1)", "C(2)"}
+	isoDepth := 4
+	if !r.Quick() {
+		isoDepth = 5
+	}
+	r.Group("set-isolation", "c20.iso", fmt.Sprintf("every history of 0..%d operations over %d operations {ban a tag / a filter on set 1 or 2, set a global, switch TrimBlocks on, compile a first template (which freezes the bans)} on two fresh sets, every ban result compared with the model, followed by probes of two tags, two filters, the global and the option on BOTH sets", isoDepth, len(isoOps)))
+	enum.Seqs(len(isoOps), isoDepth, func(idx []int) bool {
+		ops := make([]string, len(idx))
+		for i, x := range idx {
+			ops[i] = isoOps[x]
+		}
+		r.Do(&IsoCase{Ops: ops})
+		return !r.Stopped()
+	})
 	// and over pongo2's LocalFilesystemLoader on real files whose size and modification time stay the same when their
 	// content changes
 	localOps := []string{"FC(1,a)", "FC(1,b)", "FC(2,a)", "FC(1,./a)", "CC(1)", "CC(1,a)", "CC(2)", "DBG(1)", "CHG(a)"}
@@ -913,6 +1029,7 @@ func run(r *eng.Runner) {
 func init() {
 	eng.RegisterCase("c20.hist", func() eng.Case { return &HistCase{} })
 	eng.RegisterCase("c20.conc", func() eng.Case { return &ConcCase{} })
+	eng.RegisterCase("c20.iso", func() eng.Case { return &IsoCase{} })
 	eng.RegisterCase("c20.concloader", func() eng.Case { return &ConcLoaderCase{} })
 	eng.Register(&eng.Check{
 		ID:    "C20",
